@@ -306,6 +306,10 @@ func (w *world) buildSchema() *graphql.Schema {
 			return "", graphql.WrapAsSafeError(errors.New(secret), "wrapped visible message")
 		case "panic":
 			panic("resolver exploded: " + secret)
+		case "wrapcancel": // something private to the resolver was cancelled; the subscription's own context is alive
+			return "", fmt.Errorf("rpc to %s failed: %w", secret, context.Canceled)
+		case "safecancel":
+			return "", graphql.WrapAsSafeError(fmt.Errorf("inner %s: %w", secret, context.Canceled), "could not load devices")
 		}
 		return "ok", nil
 	})
